@@ -176,12 +176,17 @@ pub fn make_constraints(f: &Joints, t: &Joints, w: f64) -> Constraints {
     }
 }
 
+/// construction route of the solver's `Parameters` (0: through `URDFParameters::parameters()`), chosen from their bits
+pub fn route_of(p: &Parameters) -> u64 {
+    (p.c1.to_bits() ^ p.offsets[2].to_bits().rotate_left(9) ^ p.c4.to_bits().rotate_left(21)) % 3
+}
+
 impl KSpec {
     pub fn bare(p: Parameters) -> Self { KSpec { p, cons: None, stack: vec![] } }
     pub fn core(&self) -> OPWKinematics {
         // a third of the robots get their Parameters through URDFParameters::parameters(), another part of the limited
         // ones are built by URDFParameters::to_robot(): the route is chosen from the bits of the parameters and must not matter
-        let route = (self.p.c1.to_bits() ^ self.p.offsets[2].to_bits().rotate_left(9) ^ self.p.c4.to_bits().rotate_left(21)) % 3;
+        let route = route_of(&self.p);
         let up = |f: [f64; 6], t: [f64; 6]| rs_opw_kinematics::urdf::URDFParameters { a1: self.p.a1, a2: self.p.a2, b: self.p.b, c1: self.p.c1, c2: self.p.c2,
             c3: self.p.c3, c4: self.p.c4, sign_corrections: self.p.sign_corrections, from: f, to: t, dof: self.p.dof };
         let params = if route == 0 { up([0.0; 6], [0.0; 6]).parameters(&self.p.offsets) } else { self.p };
